@@ -575,6 +575,9 @@ class Program:
                     self._trait_impls[(im["trait"], name)].append(mp)
         self._callees = {}
         self._callers = None
+        # crate-local newtypes `struct N(T);`: values of such a type are treated as their single field
+        self.newtypes = {a for a, d in self.adts.items() if d.get("kind") == "struct" and a.startswith("roughenough") and len(d["variants"]) == 1 and
+                         len(d["variants"][0]["fields"]) == 1 and d["variants"][0]["fields"][0]["name"] == "0"}
         self.inlined = {}
         self.helper_fns = {}
         if known is None and include is not None:
